@@ -48,7 +48,13 @@ def run_tlc(spec, cfg_path, workdir, dump_dot=None, extra=(), timeout=3600, work
         cmd += ["-dump", "dot,actionlabels", dump_dot]
     cmd += ["-config", cfg_path, *extra, spec]
     t0 = time.time()
-    p = subprocess.run(cmd, cwd=os.path.join(ROOT, "spec"), capture_output=True, text=True)
+    # TLC unpacks its standard modules into java.io.tmpdir (/tmp/tlc-*) and never removes them
+    jtmp = os.path.join(workdir, "jtmp")
+    os.makedirs(jtmp, exist_ok=True)
+    env = dict(os.environ)
+    env["JAVA_TOOL_OPTIONS"] = (env.get("JAVA_TOOL_OPTIONS", "") + " -Djava.io.tmpdir=" + jtmp).strip()
+    p = subprocess.run(cmd, cwd=os.path.join(ROOT, "spec"), capture_output=True, text=True, env=env)
+    shutil.rmtree(jtmp, ignore_errors=True)
     out = p.stdout + p.stderr
     if p.returncode == 124:
         # killed by the time limit: TLC leaves its state files behind
